@@ -161,8 +161,12 @@ pub struct LinearOut {
 #[derive(Serialize, Deserialize, Clone, Debug, PartialEq)]
 pub enum LOp {
     SeekStart { p: u64 },
-    SeekCur { d: i64 },
-    SeekEnd { d: i64 },
+    /// seek(Current(p - position a cursor would be at)): the adapter tracks that position
+    SeekCurTo { p: u64 },
+    /// seek(Current(0))
+    SeekCur0,
+    /// seek(End(p - len))
+    SeekEndTo { p: u64 },
     Pos,
     Read { n: usize },
 }
@@ -192,7 +196,7 @@ pub trait Sut {
     /// Layer reader stack built the way `mlar info` builds it over a whole archive image:
     /// header parsed, raw layer pinned after it, then `depth` of the enabled layers
     /// (encryption first, then compression).
-    fn layers(&self, image: Rc<Vec<u8>>, depth: usize, rcfg: &ReadCfg, ops: &[LOp]) -> LayerOut;
+    fn layers(&self, image: Rc<Vec<u8>>, depth: usize, rcfg: &ReadCfg, len: u64, ops: &[LOp]) -> LayerOut;
     /// incremental AES-GCM core: encrypt `msg` split at `cuts`, return (ciphertext, tag)
     fn aesgcm_encrypt_split(&self, key: &[u8; 32], nonce: &[u8; 12], aad: &[u8], msg: &[u8], cuts: &[usize]) -> (Vec<u8>, [u8; 16]);
     /// one-shot decrypt: (plaintext, computed tag)
